@@ -1177,3 +1177,636 @@ Example ex_ctor : ctor_report [F 0; F 1; F 2] =
   ({| ct_params := [(0, F 0); (1, F 1); (2, F 2)]; ct_inits := [0; 1; 2] |},
    Some [VLeaf 10; VLeaf 11; VLeaf 12]).
 Proof. reflexivity. Qed.
+
+(* ================================================================== growth round: diagnostics *)
+
+Ltac iff_opt :=
+  first [ split; [discriminate | let X := fresh in intros X; exfalso; apply X; reflexivity]
+        | split; [intros _; discriminate | reflexivity] ].
+
+Lemma validate_diag_none_iff n t : validate_type n t = None <-> validate_diag n t <> None.
+Proof.
+  unfold validate_type, validate_diag.
+  destruct t as [a|k|l]; destruct (1 <? n) eqn:E1; try iff_opt.
+  - destruct (Nat.eqb_spec n (length l)) as [->|Hne].
+    + rewrite Nat.compare_refl. iff_opt.
+    + destruct (Nat.compare_spec n (length l)); try lia; iff_opt.
+  - destruct ((n =? 1) && is_nil l); iff_opt.
+Qed.
+
+(* what each diagnostic says about the input *)
+Lemma validate_diag_cases n t d :
+  validate_diag n t = Some d ->
+  match d with
+  | DAddMore e f => e = n /\ 2 <= n /\ f < n /\ exists l, t = TTuple l /\ length l = f
+  | DRemoveLast e f => e = n /\ 2 <= n /\ n < f /\ exists l, t = TTuple l /\ length l = f
+  | DUnitForOne => n = 1 /\ t = TTuple []
+  | DExpectedTuple e => e = n /\ 2 <= n /\ forall l, t <> TTuple l
+  end.
+Proof.
+  unfold validate_diag. destruct t as [a|k|l]; destruct (Nat.ltb_spec 1 n) as [Hn|Hn]; try discriminate.
+  - intros H; inversion H; subst. split; [reflexivity|]. split; [lia|]. intros l; discriminate.
+  - intros H; inversion H; subst. split; [reflexivity|]. split; [lia|]. intros l; discriminate.
+  - destruct (Nat.compare_spec n (length l)) as [Hc|Hc|Hc]; intros H; inversion H; subst;
+      (split; [reflexivity|]); (split; [lia|]); (split; [lia|]); eauto.
+  - destruct (Nat.eqb_spec n 1); cbn [andb]; [|discriminate].
+    destruct l; cbn [is_nil]; [|discriminate]. intros H; inversion H; subst. auto.
+Qed.
+
+Lemma first_some_none {A B} (f : A -> option B) l :
+  first_some f l = None <-> forall x, In x l -> f x = None.
+Proof.
+  induction l as [|x l IH]; cbn; [split; [intros _ y [] | reflexivity]|].
+  destruct (f x) eqn:E.
+  - split; [discriminate|]. intros H. specialize (H x (or_introl eq_refl)). congruence.
+  - rewrite IH. split.
+    + intros H y [<-|Hy]; auto.
+    + intros H y Hy. apply H. now right.
+Qed.
+
+Lemma ocollect_none_first {A B C} (f : A -> option (list B)) (g : A -> option C) l :
+  (forall x, In x l -> (f x = None <-> g x <> None)) ->
+  (ocollect f l = None <-> first_some g l <> None).
+Proof.
+  induction l as [|x l IH]; intros H; cbn.
+  - split; [discriminate | intros E; now contradiction E].
+  - assert (Hx := H x (or_introl eq_refl)).
+    assert (IH' : ocollect f l = None <-> first_some g l <> None)
+      by (apply IH; intros y Hy; apply H; now right).
+    destruct (f x) eqn:Ef; destruct (g x) eqn:Eg.
+    + exfalso. assert (Some l0 = None) by (apply Hx; discriminate). discriminate.
+    + destruct (ocollect f l); [|tauto]. split; [discriminate|]. intros E. apply IH' in E. discriminate.
+    + split; [discriminate | reflexivity].
+    + exfalso. destruct Hx as [Hx _]. now apply Hx.
+Qed.
+
+Lemma rcollect_err_first {A B C} (f : A -> res (list B)) (g : A -> option C) l :
+  (forall x, In x l -> f x <> RPanic) ->
+  (forall x, In x l -> (f x = RErr <-> g x <> None)) ->
+  (rcollect f l = RErr <-> first_some g l <> None).
+Proof.
+  induction l as [|x l IH]; intros Hp H; cbn.
+  - split; [discriminate | intros E; now contradiction E].
+  - assert (Hx := H x (or_introl eq_refl)). assert (Hpx := Hp x (or_introl eq_refl)).
+    assert (IH' : rcollect f l = RErr <-> first_some g l <> None).
+    { apply IH; intros y Hy; [apply Hp | apply H]; now right. }
+    destruct (f x) eqn:Ef; destruct (g x) eqn:Eg; cbn.
+    + exfalso. assert (ROk a = RErr) by (apply Hx; discriminate). discriminate.
+    + destruct (rcollect f l); cbn; [split; [discriminate|] | tauto |].
+      * intros E. apply IH' in E. discriminate.
+      * split; [discriminate|]. intros E. apply IH' in E. discriminate.
+    + split; [discriminate | reflexivity].
+    + exfalso. destruct Hx as [Hx _]. now apply Hx.
+    + now contradiction Hpx.
+    + now contradiction Hpx.
+Qed.
+
+Lemma expand_one_err_iff a variant ftys he :
+  expand_one a variant ftys he = RErr <-> expand_one_diag a ftys <> None.
+Proof.
+  unfold expand_one, expand_one_diag.
+  destruct a as [[| | |tys]|];
+    try (split; [intros H; split_skip H; discriminate | intros H; now contradiction H]).
+  - (* Types *)
+    set (g := fun t : ty =>
+        match validate_type (length ftys) t with
+        | None => RErr
+        | Some from_tys =>
+            match typed_inits (projs ftys) from_tys with
+            | None => RPanic
+            | Some inits => ROk [ {| fd_variant := variant; fd_src := t; fd_ngen := 0; fd_inits := inits |} ]
+            end
+        end).
+    assert (Hg : forall t, g t <> RPanic /\ (g t = RErr <-> validate_diag (length ftys) t <> None)).
+    { intros t. unfold g. destruct (validate_type (length ftys) t) as [from_tys|] eqn:Ev.
+      - assert (Hd : validate_diag (length ftys) t = None).
+        { destruct (validate_diag (length ftys) t) eqn:Ed; [|reflexivity].
+          assert (validate_type (length ftys) t = None) by (apply validate_diag_none_iff; congruence). congruence. }
+        destruct (typed_inits (projs ftys) from_tys) eqn:Et.
+        + split; [discriminate|]. rewrite Hd. split; [discriminate | intros H; now contradiction H].
+        + exfalso. apply typed_inits_none in Et. rewrite projs_length in Et.
+          destruct (validate_type_components _ _ _ Ev) as [_ [H2 H1]].
+          destruct (le_lt_dec 2 (length ftys)) as [Hn|Hn]; [specialize (H2 Hn); lia|].
+          destruct (le_lt_dec 1 (length ftys)) as [Hm|Hm]; [specialize (H1 Hm); lia | lia].
+      - split; [discriminate|]. split; [intros _; now apply validate_diag_none_iff | reflexivity]. }
+    assert (Hc : rcollect g tys = RErr <-> first_some (validate_diag (length ftys)) tys <> None).
+    { apply rcollect_err_first; intros t _; apply Hg. }
+    exact Hc.
+Qed.
+
+Lemma expand_variants_err_iff he : forall vs attrs k,
+  length attrs = length vs ->
+  (expand_variants he k vs attrs = RErr <->
+   first_some (fun va => expand_one_diag (snd va) (v_fields (fst va))) (combine vs attrs) <> None).
+Proof.
+  induction vs as [|v vs IH]; intros [|a attrs] k Hl; cbn; try discriminate.
+  - split; [discriminate | intros H; now contradiction H].
+  - assert (H1 := expand_one_err_iff a (Some k) (v_fields v) he).
+    assert (Hnp := expand_one_no_panic a (Some k) (v_fields v) he).
+    assert (IH' := IH attrs (S k) ltac:(cbn in Hl; lia)).
+    assert (Hnp' := expand_variants_no_panic he vs attrs (S k)).
+    destruct (expand_one a (Some k) (v_fields v) he) eqn:E1; cbn.
+    + destruct (expand_one_diag a (v_fields v)) eqn:Ed.
+      * exfalso. assert (ROk a0 = RErr) by (apply H1; discriminate). discriminate.
+      * destruct (expand_variants he (S k) vs attrs) eqn:E2; cbn.
+        -- split; [discriminate|]. intros E. apply IH' in E. discriminate.
+        -- tauto.
+        -- now contradiction Hnp'.
+    + destruct (expand_one_diag a (v_fields v)) eqn:Ed.
+      * split; [discriminate | reflexivity].
+      * exfalso. destruct H1 as [H1 _]. now apply H1.
+    + now contradiction Hnp.
+Qed.
+
+(* when does `derive(From)` answer with a diagnostic: an attribute that does not parse, or a listed
+   type that validate_type refuses - and [from_diag] is then the first such refusal *)
+Theorem from_err_iff it :
+  from_expand it = RErr <->
+  (match it with
+   | IStruct attrs _ => parse_attrs parse_struct_attr None attrs = None
+   | IEnum vs => parse_all vs = None
+   end \/ from_diag it <> None).
+Proof.
+  destruct it as [attrs ftys|vs]; cbn [from_expand from_diag].
+  - destruct (parse_attrs parse_struct_attr None attrs) as [a|].
+    + rewrite expand_one_err_iff. split; [auto | intros [H|H]; [discriminate | exact H]].
+    + split; [auto | reflexivity].
+  - destruct (parse_all vs) as [attrs|] eqn:Ep.
+    + destruct (parse_all_nth _ _ Ep) as [Hl _].
+      rewrite (expand_variants_err_iff _ vs attrs 0 Hl).
+      split; [auto | intros [H|H]; [discriminate | exact H]].
+    + split; [auto | reflexivity].
+Qed.
+
+Lemma expansion_none_iff src c : expansion src c = None <-> expansion_diag src c <> None.
+Proof.
+  unfold expansion, expansion_diag. apply ocollect_none_first. intros k _.
+  destruct (c_consider (ca_get k c) || negb (is_nil (c_tys (ca_get k c)))).
+  - apply ocollect_none_first. intros t _.
+    destruct (validate_type (length src) t) eqn:Ev.
+    + split; [discriminate|]. intros H. apply validate_diag_none_iff in H. congruence.
+    + split; [intros _; now apply validate_diag_none_iff | reflexivity].
+  - split; [discriminate | intros H; now contradiction H].
+Qed.
+
+Lemma into_expand_via_expansions sattrs fields :
+  into_expand sattrs fields =
+  match into_expansions sattrs fields with
+  | None => None
+  | Some es => ocollect (fun e => expansion (fst e) (snd e)) es
+  end.
+Proof.
+  unfold into_expand, into_expansions.
+  destruct (parse_sattrs None sattrs); [|reflexivity].
+  destruct (parse_ifields 0 fields); reflexivity.
+Qed.
+
+(* when does `derive(Into)` answer with a diagnostic *)
+Theorem into_err_iff sattrs fields :
+  into_expand sattrs fields = None <->
+  (into_expansions sattrs fields = None \/ into_diag sattrs fields <> None).
+Proof.
+  rewrite into_expand_via_expansions. unfold into_diag.
+  destruct (into_expansions sattrs fields) as [es|].
+  - assert (H : ocollect (fun e => expansion (fst e) (snd e)) es = None <->
+                first_some (fun e => expansion_diag (fst e) (snd e)) es <> None).
+    { apply ocollect_none_first. intros e _. apply expansion_none_iff. }
+    rewrite H. split; [auto | intros [E|E]; [discriminate | exact E]].
+  - split; [auto | reflexivity].
+Qed.
+
+(* ================================================================== growth round: the attribute grammar *)
+
+Definition kind_eqb (a b : kind) : bool :=
+  match a, b with KOwned, KOwned | KRef, KRef | KRefMut, KRefMut => true | _, _ => false end.
+
+(* the types one argument list asks for under kind k, in the order written: the groups `k(..)` of that
+   kind, and for `owned` also the top-level types *)
+Definition tys_of (k : kind) (l : list citem) : list ty :=
+  flat_map (fun it => match it with
+                      | CType t => if kind_eqb k KOwned then [t] else []
+                      | CKind k' (Some tys) => if kind_eqb k k' then tys else []
+                      | CKind _ None => []
+                      end) l.
+(* is kind k named bare *)
+Definition bare_of (k : kind) (l : list citem) : bool :=
+  existsb (fun it => match it with CKind k' None => kind_eqb k k' | _ => false end) l.
+Definition has_kind (l : list citem) : bool :=
+  existsb (fun it => match it with CKind _ _ => true | _ => false end) l.
+Definition has_type (l : list citem) : bool :=
+  existsb (fun it => match it with CType _ => true | _ => false end) l.
+
+Lemma ca_get_set_same k x c : ca_get k (ca_set k x c) = x.
+Proof. destruct k; reflexivity. Qed.
+Lemma ca_get_set_other k k' x c : kind_eqb k k' = false -> ca_get k (ca_set k' x c) = ca_get k c.
+Proof. destruct k, k'; cbn; intros H; try reflexivity; discriminate. Qed.
+Lemma kind_eqb_refl k : kind_eqb k k = true.
+Proof. destruct k; reflexivity. Qed.
+Lemma kind_eqb_eq a b : kind_eqb a b = true -> a = b.
+Proof. destruct a, b; cbn; intros H; try reflexivity; discriminate. Qed.
+
+Lemma parse_citems_spec l : forall out w t,
+  let r := parse_citems l out w t in
+  (forall k, c_tys (ca_get k (fst (fst r))) = c_tys (ca_get k out) ++ tys_of k l /\
+             c_consider (ca_get k (fst (fst r))) = c_consider (ca_get k out) || bare_of k l) /\
+  snd (fst r) = w || has_kind l /\ snd r = t || has_type l.
+Proof.
+  induction l as [|it l IH]; intros out w t; cbn [parse_citems].
+  - cbn. split; [|now rewrite !orb_false_r]. intros k. now rewrite app_nil_r, orb_false_r.
+  - destruct it as [ty0|k0 [tys0|]].
+    + (* top-level type *)
+      specialize (IH (ca_set KOwned {| c_consider := c_consider (ca_owned out); c_tys := c_tys (ca_owned out) ++ [ty0] |} out) w true).
+      cbn zeta in IH. destruct IH as [IHk [IHw IHt]]. split; [|split].
+      * intros k. destruct (IHk k) as [H1 H2]. rewrite H1, H2. cbn [tys_of flat_map bare_of existsb orb].
+        destruct k; cbn [kind_eqb ca_get ca_set ca_owned ca_ref ca_ref_mut c_tys c_consider app];
+          try rewrite <- app_assoc; auto.
+      * rewrite IHw. reflexivity.
+      * rewrite IHt. cbn. now rewrite orb_true_r.
+    + (* k0(types) *)
+      specialize (IH (ca_set k0 {| c_consider := c_consider (ca_get k0 out); c_tys := c_tys (ca_get k0 out) ++ tys0 |} out) true t).
+      cbn zeta in IH. destruct IH as [IHk [IHw IHt]]. split; [|split].
+      * intros k. destruct (IHk k) as [H1 H2]. rewrite H1, H2. cbn [tys_of flat_map bare_of existsb orb].
+        destruct (kind_eqb k k0) eqn:E.
+        -- apply kind_eqb_eq in E; subst k0. rewrite ca_get_set_same. cbn. now rewrite <- app_assoc.
+        -- rewrite (ca_get_set_other _ _ _ _ E). auto.
+      * rewrite IHw. cbn. now rewrite orb_true_r.
+      * rewrite IHt. reflexivity.
+    + (* bare k0 *)
+      specialize (IH (ca_set k0 {| c_consider := true; c_tys := c_tys (ca_get k0 out) |} out) true t).
+      cbn zeta in IH. destruct IH as [IHk [IHw IHt]]. split; [|split].
+      * intros k. destruct (IHk k) as [H1 H2]. rewrite H1, H2. cbn [tys_of flat_map bare_of existsb app].
+        destruct (kind_eqb k k0) eqn:E.
+        -- apply kind_eqb_eq in E; subst k0. rewrite ca_get_set_same. cbn. now rewrite orb_true_r.
+        -- rewrite (ca_get_set_other _ _ _ _ E). auto.
+      * rewrite IHw. cbn. now rewrite orb_true_r.
+      * rewrite IHt. reflexivity.
+Qed.
+
+(* ConversionsAttribute::parse refuses exactly the lists that mix top-level types with wrappers *)
+Theorem parse_cattr_rejects_iff l :
+  parse_cattr l = None <-> (has_kind l = true /\ has_type l = true).
+Proof.
+  unfold parse_cattr. pose proof (parse_citems_spec l cattr_none false false) as Hs. cbn zeta in Hs.
+  destruct Hs as [_ [Hw Ht]].
+  destruct (parse_citems l cattr_none false false) as [[c w] t]. cbn in Hw, Ht. subst w t.
+  destruct (has_kind l), (has_type l); cbn; intuition congruence.
+Qed.
+
+(* ... and otherwise collects, kind by kind, every group of that kind in the order written (types of a
+   kind named several times accumulate; a bare kind asks for the fields' own types) *)
+Theorem parse_cattr_spec l c :
+  parse_cattr l = Some c ->
+  forall k, c_tys (ca_get k c) = tys_of k l /\ c_consider (ca_get k c) = bare_of k l.
+Proof.
+  unfold parse_cattr. pose proof (parse_citems_spec l cattr_none false false) as Hs. cbn zeta in Hs.
+  destruct Hs as [Hk _].
+  destruct (parse_citems l cattr_none false false) as [[c' w] t]. cbn in Hk.
+  destruct (w && t); [discriminate|]. intros H; inversion H; subst c'. intros k.
+  destruct (Hk k) as [H1 H2]. rewrite H1, H2. destruct k; auto.
+Qed.
+
+Lemma tys_of_app k l1 l2 : tys_of k (l1 ++ l2) = tys_of k l1 ++ tys_of k l2.
+Proof. unfold tys_of. apply flat_map_app. Qed.
+Lemma bare_of_app k l1 l2 : bare_of k (l1 ++ l2) = bare_of k l1 || bare_of k l2.
+Proof. unfold bare_of. apply existsb_app. Qed.
+
+Lemma ca_get_merge k a b : ca_get k (merge_cattr a b) = merge_convs (ca_get k a) (ca_get k b).
+Proof. destruct k; reflexivity. Qed.
+
+(* several `#[into(..)]` attributes (each accepted on its own) mean what one attribute with the
+   concatenated argument list means *)
+Theorem merge_cattr_is_concat l1 l2 c1 c2 :
+  parse_cattr l1 = Some c1 -> parse_cattr l2 = Some c2 ->
+  forall k, c_tys (ca_get k (merge_cattr c1 c2)) = tys_of k (l1 ++ l2) /\
+            c_consider (ca_get k (merge_cattr c1 c2)) = bare_of k (l1 ++ l2).
+Proof.
+  intros H1 H2 k. destruct (parse_cattr_spec _ _ H1 k) as [A1 B1]. destruct (parse_cattr_spec _ _ H2 k) as [A2 B2].
+  rewrite ca_get_merge, tys_of_app, bare_of_app. cbn. now rewrite A1, A2, B1, B2.
+Qed.
+
+(* the keyword rule of into.rs:383-391 *)
+Theorem classify_arg_spec a :
+  (ra_pathsep a = true -> classify_arg a = CType (ra_ty a)) /\
+  (ra_pathsep a = false -> ra_head a = HOther -> classify_arg a = CType (ra_ty a)) /\
+  (ra_pathsep a = false -> ra_head a <> HOther -> exists k, classify_arg a = CKind k (ra_group a)).
+Proof.
+  unfold classify_arg. destruct (ra_pathsep a), (ra_head a); repeat split; intros; try discriminate;
+    try reflexivity; try congruence; eauto.
+Qed.
+
+(* ---- #[from(..)]: repeated attributes *)
+
+Lemma parse_attrs_types_acc p ls : forall acc,
+  (forall l, In l ls -> p (AArgs l) = Some (FTypes l)) ->
+  parse_attrs p (Some (FTypes acc)) (map AArgs ls) = Some (Some (FTypes (acc ++ concat ls))).
+Proof.
+  induction ls as [|l ls IH]; intros acc H; cbn.
+  - now rewrite app_nil_r.
+  - rewrite (H l (or_introl eq_refl)). cbn. rewrite IH; [now rewrite app_assoc|].
+    intros l' Hl'. apply H. now right.
+Qed.
+
+(* repeated `#[from(types..)]` attributes are one list, in the order written *)
+Theorem from_repeated_types_concat p l ls :
+  (forall x, In x (l :: ls) -> p (AArgs x) = Some (FTypes x)) ->
+  parse_attrs p None (map AArgs (l :: ls)) = Some (Some (FTypes (concat (l :: ls)))).
+Proof.
+  intros H. cbn [map parse_attrs]. rewrite (H l (or_introl eq_refl)).
+  apply parse_attrs_types_acc. intros x Hx. apply H. now right.
+Qed.
+
+(* and nothing else may be repeated: two attributes are accepted only if both are type lists *)
+Theorem from_two_attrs_need_types p a b r x :
+  parse_attrs p None (a :: b :: r) = Some x ->
+  (exists ta, p a = Some (FTypes ta)) /\ (exists tb, p b = Some (FTypes tb)).
+Proof.
+  cbn [parse_attrs]. destruct (p a) as [fa|]; [|discriminate]. destruct (p b) as [fb|]; [|discriminate].
+  destruct fa, fb; cbn [merge_fattr]; try discriminate. eauto.
+Qed.
+
+(* ---- the legacy word *)
+
+Lemma legacy_not_word l : legacy_types l = true -> parse_skip l = false /\ parse_forward l = false.
+Proof.
+  destruct l as [|t [|t' r]]; cbn; try discriminate; try (intros _; split; reflexivity).
+  destruct t as [n| |]; cbn; try discriminate. intros H. apply N.eqb_eq in H. subst n. split; reflexivity.
+Qed.
+
+(* an argument list that starts with the bare identifier `types` is refused, on structs and variants *)
+Theorem from_legacy_types_rejected l :
+  legacy_types l = true ->
+  parse_variant_attr (AArgs l) = None /\ parse_struct_attr (AArgs l) = None /\
+  (forall ftys, from_expand (IStruct [AArgs l] ftys) = RErr).
+Proof.
+  intros H. destruct (legacy_not_word l H) as [H1 H2]. unfold parse_variant_attr, parse_struct_attr.
+  rewrite H1, H2, H. repeat split. intros ftys. cbn. now rewrite H2, H.
+Qed.
+
+(* ================================================================== growth round: documented unless known *)
+
+(* the documented components of a listed type for n fields: the type itself for one field, its
+   elements for a tuple of several *)
+Definition doc_comps (n : nat) (t : ty) : list ty := if n =? 1 then [t] else comps t.
+
+(* the input class of the two known findings: a TUPLE type offered for exactly one participating field
+   (validate_type splits it: `listed-tuple-for-single-field-split`; with one element it is silently the
+   element: `into-listed-one-tuple-flattened`) *)
+Definition known_split (n : nat) (t : ty) : Prop := n = 1 /\ exists l, t = TTuple l.
+
+Lemma validate_documented n t c :
+  validate_type n t = Some c -> ~ known_split n t -> c = doc_comps n t /\ n <= length c \/ n = 0 /\ c = doc_comps n t.
+Proof.
+  intros H Hk. destruct (validate_type_components _ _ _ H) as [Hc [H2 H1]]. unfold doc_comps.
+  destruct n as [|[|n]].
+  - right. auto.
+  - left. cbn. destruct t as [a|g|l]; cbn in Hc; subst c; cbn; auto.
+    exfalso. apply Hk. split; eauto.
+  - left. cbn [Nat.eqb]. split; [exact Hc|]. rewrite H2; lia.
+Qed.
+
+Lemma map_fst_combine_le {A B} (l1 : list A) (l2 : list B) :
+  length l1 <= length l2 -> map fst (combine l1 l2) = l1.
+Proof.
+  revert l2; induction l1 as [|a l1 IH]; intros [|b l2] H; cbn in *; try reflexivity; try lia.
+  f_equal. apply IH. lia.
+Qed.
+
+(* From, listed types: outside the known class every field is converted from the documented component
+   of the listed type, one From::from per field *)
+Theorem from_documented_unless_known it ds d ftys from_tys :
+  from_expand it = ROk ds -> In d ds -> fields_of it d = Some ftys ->
+  validate_type (length ftys) (fd_src d) = Some from_tys ->
+  from_trace ftys d = combine (firstn (length ftys) from_tys) ftys ->
+  ~ known_split (length ftys) (fd_src d) ->
+  from_trace ftys d = combine (doc_comps (length ftys) (fd_src d)) ftys /\
+  (1 <= length ftys -> length (doc_comps (length ftys) (fd_src d)) = length ftys).
+Proof.
+  intros _ _ _ Hv Ht Hk. rewrite Ht. clear Ht.
+  assert (Hnil : forall (l : list ty), combine l (@nil ty) = []) by (intros l; now destruct l).
+  destruct (validate_documented _ _ _ Hv Hk) as [[Hd Hl] | [H0 Hd]].
+  - subst from_tys. destruct (le_lt_dec 2 (length ftys)) as [Hn|Hn].
+    + assert (Hlen := validate_type_len _ _ _ Hn Hv).
+      rewrite firstn_all2 by lia. split; [reflexivity | intros _; exact Hlen].
+    + destruct ftys as [|f [|f' r]]; cbn [length] in *; try lia.
+      * rewrite !Hnil. split; [reflexivity | intros; lia].
+      * unfold doc_comps. cbn. split; reflexivity.
+  - destruct ftys; [|discriminate]. rewrite !Hnil. split; [reflexivity | cbn; intros; lia].
+Qed.
+
+(* witness of the known class on the From side: `#[from((A, B))] struct S(X);` converts the field from A *)
+Theorem from_known_split_refuted :
+  exists it d ftys,
+    from_expand it = ROk [d] /\ fields_of it d = Some ftys /\ known_split (length ftys) (fd_src d) /\
+    from_trace ftys d <> combine (doc_comps (length ftys) (fd_src d)) ftys.
+Proof.
+  exists (IStruct [AArgs [TTuple [TAtom 20; TAtom 21]]] [TAtom 10]).
+  eexists. exists [TAtom 10]. split; [reflexivity|]. split; [reflexivity|]. split.
+  - split; [reflexivity|]. eexists; reflexivity.
+  - cbn. intros H. inversion H.
+Qed.
+
+(* Into: every emitted impl, with the (fields, conversions, requested type) it comes from *)
+Theorem into_documented_unless_known sattrs fields ds d :
+  into_expand sattrs fields = Some ds -> In d ds ->
+  exists src out_ty,
+    validate_type (length src) out_ty = Some (id_tys d) /\ id_inits d = combine src (id_tys d) /\
+    (* the fields' own types: always as documented *)
+    (out_ty = TTuple (map snd src) -> id_tys d = map snd src /\ map fst (into_trace d) = src) /\
+    (* a listed type outside the known class: as documented, one From::from per converted field *)
+    (~ known_split (length src) out_ty ->
+       id_tys d = doc_comps (length src) out_ty /\ map fst (into_trace d) = src).
+Proof.
+  intros He Hd.
+  destruct (into_positions _ _ _ _ He Hd) as [sa [fds [src [c [out_ty [_ [_ [_ [_ [_ [_ [Hv Hi]]]]]]]]]]]].
+  exists src, out_ty. split; [exact Hv|]. split; [exact Hi|]. unfold into_trace. split.
+  - intros ->. rewrite validate_own_src in Hv. injection Hv as Ht.
+    split; [symmetry; exact Ht|]. rewrite Hi, <- Ht. apply map_fst_combine_le. now rewrite map_length.
+  - intros Hk. destruct (validate_documented _ _ _ Hv Hk) as [[Hc Hl] | [H0 Hc]].
+    + split; [exact Hc|]. rewrite Hi. now apply map_fst_combine_le.
+    + split; [exact Hc|]. rewrite Hi. destruct src; [reflexivity | discriminate].
+Qed.
+
+(* witnesses of the known class on the Into side *)
+Theorem into_known_one_tuple_refuted :
+  exists sattrs fields d (src : list (nat * ty)) out_ty,
+    into_expand sattrs fields = Some [d] /\ validate_type (length src) out_ty = Some (id_tys d) /\
+    known_split (length src) out_ty /\ id_tys d <> doc_comps (length src) out_ty.
+Proof.
+  exists [IArgs [CType (TTuple [TAtom 40])]], [(TAtom 10, [])].
+  eexists. exists [(0, TAtom 10)], (TTuple [TAtom 40]).
+  split; [reflexivity|]. split; [reflexivity|]. split.
+  - split; [reflexivity|]. eexists; reflexivity.
+  - cbn. intros H. inversion H.
+Qed.
+
+Theorem into_known_split_refuted :
+  exists sattrs fields d (src : list (nat * ty)) out_ty,
+    into_expand sattrs fields = Some [d] /\ validate_type (length src) out_ty = Some (id_tys d) /\
+    known_split (length src) out_ty /\ length (id_tys d) <> length src /\ length (into_trace d) = 1.
+Proof.
+  exists [IArgs [CType (TTuple [TAtom 90; TAtom 91])]], [(TTuple [TAtom 90; TAtom 91], [])].
+  eexists. exists [(0, TTuple [TAtom 90; TAtom 91])], (TTuple [TAtom 90; TAtom 91]).
+  split; [reflexivity|]. split; [reflexivity|]. split.
+  - split; [reflexivity|]. eexists; reflexivity.
+  - cbn. split; [lia | reflexivity].
+Qed.
+
+(* ================================================================== growth round: round trips with skipped fields *)
+
+Fixpoint select {A} (skip : list bool) (l : list A) : list A :=
+  match skip, l with
+  | b :: skip', x :: l' => if b then select skip' l' else x :: select skip' l'
+  | _, _ => []
+  end.
+
+Lemma kept_from_cons k t b fs :
+  kept_from k ((t, b) :: fs) = (if b then [] else [(k, t)]) ++ kept_from (S k) fs.
+Proof. unfold kept_from. cbn [length seq combine filter snd fst]. destruct b; reflexivity. Qed.
+
+Lemma kept_select {A} (d : A) : forall fs cs pre,
+  length cs = length fs ->
+  map (fun e => nth (fst e) (pre ++ cs) d) (kept_from (length pre) fs) = select (map snd fs) cs.
+Proof.
+  induction fs as [|[t b] fs IH]; intros [|c cs] pre Hl; try discriminate; [reflexivity|].
+  rewrite kept_from_cons. cbn [map snd select]. rewrite map_app.
+  assert (Hrest : map (fun e => nth (fst e) (pre ++ c :: cs) d) (kept_from (S (length pre)) fs) = select (map snd fs) cs).
+  { specialize (IH cs (pre ++ [c]) ltac:(cbn in Hl; lia)).
+    rewrite app_length in IH. cbn [length] in IH. rewrite Nat.add_1_r in IH.
+    rewrite <- app_assoc in IH. exact IH. }
+  rewrite Hrest. destruct b; cbn [map app fst]; [reflexivity|].
+  rewrite app_nth2 by lia. rewrite Nat.sub_diag. reflexivity.
+Qed.
+
+(* From (all fields) followed by Into (the non-skipped ones), for every skip set: the components at
+   the non-skipped positions come back, in order; by reference, the addresses of those positions *)
+Theorem roundtrip_skips conv (Hrefl : forall k t v, conv k t t v = v) fs cs :
+  length cs = length fs ->
+  from_expand (IStruct [] (map fst fs)) = ROk [direct_impl (map fst fs)] /\
+  into_expand [] (map mk_field fs) = Some [own_impl (kept fs) KOwned] /\
+  from_sem conv (map fst fs) (direct_impl (map fst fs)) (pack cs) = Some cs /\
+  into_sem conv (own_impl (kept fs) KOwned) cs = Some (pack (select (map snd fs) cs)) /\
+  into_sem conv (own_impl (kept fs) KRef) cs = Some (pack (map (fun e => VAddr false (fst e)) (kept fs))) /\
+  into_sem conv (own_impl (kept fs) KRefMut) cs = Some (pack (map (fun e => VAddr true (fst e)) (kept fs))).
+Proof.
+  intros Hl. split; [apply from_expand_plain|]. split; [apply into_default|]. split.
+  - apply from_direct_id. now rewrite map_length.
+  - rewrite !(into_extracts conv Hrefl) by exact Hl. cbn [acc]. repeat split.
+    f_equal. f_equal. exact (kept_select (VLeaf 0) fs cs [] Hl).
+Qed.
+
+(* the other direction: Into followed by From rebuilds the struct when nothing is skipped; with skipped
+   fields the tuple is shorter than the field list and From does not accept it *)
+Lemma select_none_skipped {A} (ftys : list ty) (cs : list A) :
+  length cs = length ftys -> select (map snd (map (fun t => (t, false)) ftys)) cs = cs.
+Proof.
+  revert cs; induction ftys as [|t ftys IH]; intros [|c cs] H; try discriminate; [reflexivity|].
+  cbn. f_equal. apply IH. cbn in H; lia.
+Qed.
+
+Lemma select_length {A} : forall (skip : list bool) (l : list A),
+  length l = length skip -> length (select skip l) = length (filter negb skip).
+Proof.
+  induction skip as [|b skip IH]; intros [|x l] H; try discriminate; [reflexivity|].
+  cbn. destruct b; cbn; rewrite IH; auto; cbn in H; lia.
+Qed.
+
+(* ================================================================== growth round: Into impl set as an iff *)
+
+(* the (fields, conversions) pairs an Into derive expands (into.rs:83-105) *)
+Definition into_requests (sa : option sattr) (fds : list ifield) : list (list (nat * ty) * cattr) :=
+  flat_map (fun f => match if_convs f with
+                     | Some c => [([(if_idx f, if_ty f)], c)]
+                     | None => []
+                     end) fds
+  ++ match struct_convs sa fds with Some c => [(nonskipped fds, c)] | None => [] end.
+
+(* an impl (kind, components) is emitted iff some requested type of that kind has these components:
+   none missing, none extra *)
+Theorem into_impl_set_iff sattrs fields ds :
+  into_expand sattrs fields = Some ds ->
+  exists sa fds,
+    parse_sattrs None sattrs = Some sa /\ parse_ifields 0 fields = Some fds /\
+    forall k cs,
+      In (k, cs) (map (fun d => (id_kind d, id_tys d)) ds) <->
+      exists e t, In e (into_requests sa fds) /\ In t (requested (fst e) (snd e) k) /\ cs = comps t.
+Proof.
+  intros H. destruct (into_impl_set _ _ _ H) as [sa [fds [H1 [H2 H3]]]].
+  exists sa, fds. split; [exact H1|]. split; [exact H2|]. intros k cs. rewrite H3. unfold into_requests.
+  rewrite in_flat_map. split.
+  - intros [e [He Hin]]. apply in_flat_map in Hin as [k' [_ Hin]].
+    apply in_map_iff in Hin as [t [Heq Ht]]. inversion Heq; subst. exists e, t. auto.
+  - intros [e [t [He [Ht ->]]]]. exists e. split; [exact He|]. apply in_flat_map. exists k. split.
+    + destruct k; cbn; auto.
+    + apply in_map_iff. exists t. auto.
+Qed.
+
+(* and as many impls as requested types, counted with multiplicity *)
+Theorem into_impl_count sattrs fields ds :
+  into_expand sattrs fields = Some ds ->
+  exists sa fds,
+    parse_sattrs None sattrs = Some sa /\ parse_ifields 0 fields = Some fds /\
+    length ds = length (flat_map (fun e => flat_map (fun k => requested (fst e) (snd e) k) kinds)
+                                 (into_requests sa fds)).
+Proof.
+  intros H. destruct (into_impl_set _ _ _ H) as [sa [fds [H1 [H2 H3]]]].
+  exists sa, fds. split; [exact H1|]. split; [exact H2|].
+  rewrite <- (map_length (fun d => (id_kind d, id_tys d))), H3. unfold into_requests.
+  generalize (flat_map (fun f => match if_convs f with
+                     | Some c => [([(if_idx f, if_ty f)], c)]
+                     | None => []
+                     end) fds
+  ++ match struct_convs sa fds with Some c => [(nonskipped fds, c)] | None => [] end).
+  intros l. induction l as [|e l IH]; [reflexivity|].
+  cbn [flat_map]. rewrite !app_length, IH. f_equal.
+  unfold kinds. cbn [flat_map]. rewrite !app_length, !map_length. reflexivity.
+Qed.
+
+(* ================================================================== growth round: non-vacuity *)
+
+(* #[into(owned(A), ref(B), owned, owned(C, D), ref)]: groups of one kind accumulate in order *)
+Example ex_parse_cattr_repeated :
+  option_map (fun c => (c_tys (ca_owned c), c_consider (ca_owned c), c_tys (ca_ref c), c_consider (ca_ref c),
+                        c_tys (ca_ref_mut c)))
+    (parse_cattr [CKind KOwned (Some [P 0]); CKind KRef (Some [P 1]); CKind KOwned None;
+                  CKind KOwned (Some [P 2; P 3]); CKind KRef None]) =
+  Some ([P 0; P 2; P 3], true, [P 1], true, []).
+Proof. reflexivity. Qed.
+
+Example ex_parse_cattr_mixing_rejected :
+  parse_cattr [CKind KRef None; CType (P 0)] = None /\ parse_cattr [CType (P 0); CType (P 1)] <> None.
+Proof. split; [reflexivity | discriminate]. Qed.
+
+Example ex_classify_path :
+  classify_arg {| ra_head := HOwned; ra_pathsep := true; ra_group := None; ra_ty := P 0 |} = CType (P 0) /\
+  classify_arg {| ra_head := HOwned; ra_pathsep := false; ra_group := Some [P 1]; ra_ty := P 0 |} = CKind KOwned (Some [P 1]).
+Proof. split; reflexivity. Qed.
+
+Example ex_from_diag :
+  from_diag (IStruct [AArgs [TTuple [P 0; P 1]; TTuple [P 0; P 1; P 2]]] [F 0; F 1]) = Some (DRemoveLast 2 3) /\
+  from_diag (IEnum [ {| v_attrs := []; v_fields := [F 0] |};
+                     {| v_attrs := [AArgs [P 0]]; v_fields := [F 1; F 2; F 3] |} ]) = Some (DExpectedTuple 3) /\
+  from_diag (IStruct [AArgs [TTuple []]] [F 0]) = Some DUnitForOne /\
+  from_diag (IStruct [AArgs [TTuple [P 0]]] [F 0; F 1; F 2]) = Some (DAddMore 3 1).
+Proof. repeat split. Qed.
+
+Example ex_into_diag :
+  into_diag [IArgs [CKind KRef (Some [TTuple [P 0; P 1; P 2]])]] [(F 0, []); (F 1, [])] = Some (DRemoveLast 2 3).
+Proof. reflexivity. Qed.
+
+Example ex_legacy : from_expand (IStruct [AArgs [TAtom W_TYPES; P 0]] [F 0]) = RErr /\
+                    exists ds, from_expand (IStruct [AArgs [P 0; TAtom W_TYPES]] [F 0]) = ROk ds.
+Proof. split; [reflexivity | eexists; reflexivity]. Qed.
+
+Example ex_repeated_from :
+  parse_attrs parse_variant_attr None [AArgs [P 0]; AArgs [P 1; P 2]; AArgs [P 3]] =
+  Some (Some (FTypes [P 0; P 1; P 2; P 3])) /\
+  parse_attrs parse_variant_attr None [AArgs [P 0]; AArgs [TAtom W_FORWARD]] = None.
+Proof. split; reflexivity. Qed.
+
+(* struct S(F0, #[into(skip)] F1, F2, #[into(skip)] F3): from (a,b,c,d) then into gives (a,c) *)
+Example ex_roundtrip_skips :
+  into_sem (fun _ _ _ v => v)
+           (own_impl (kept [(F 0, false); (F 1, true); (F 2, false); (F 3, true)]) KOwned)
+           [VLeaf 10; VLeaf 11; VLeaf 12; VLeaf 13] = Some (VTuple [VLeaf 10; VLeaf 12]) /\
+  select [false; true; false; true] [VLeaf 10; VLeaf 11; VLeaf 12; VLeaf 13] = [VLeaf 10; VLeaf 12].
+Proof. split; reflexivity. Qed.
